@@ -119,6 +119,15 @@ theorem Parked.signal_sub {C : Type} [DecidableEq C] (ps ps' : Parked C) (c : C)
     obtain ⟨q, _, rfl⟩ := h
     exact fun p hp => List.mem_of_mem_erase hp
 
+theorem Parked.signal_nodup {C : Type} [DecidableEq C] (ps ps' : Parked C) (c : C)
+    (h : ps' ∈ ps.signal c) (hn : ps.Nodup) : ps'.Nodup := by
+  unfold Parked.signal at h
+  split at h
+  · simp at h; subst h; exact hn
+  · simp only [List.mem_map] at h
+    obtain ⟨q, _, rfl⟩ := h
+    exact hn.erase _
+
 /-- a signal un-parks only threads parked on that condvar -/
 theorem Parked.signal_other {C : Type} [DecidableEq C] (ps ps' : Parked C) (c : C)
     (h : ps' ∈ ps.signal c) : ∀ p, p ∈ ps → p.2 ≠ c → p ∈ ps' := by
